@@ -214,6 +214,28 @@ def program_check(ap, prog, x, ybars, mode, k, tol=1e-9):
     return out
 
 
+def pivots_per_direction(ap, prog, x):
+    """pivot vectors LAPACK returns during a forward run of prog on the P directions of x: list over factorizations of [piv of direction p]"""
+    import scipy.linalg
+    P = x.shape[1]
+    log = []
+    orig = scipy.linalg.lu_factor
+
+    def spy(a, *args, **kw):
+        r = orig(a, *args, **kw)
+        log.append(tuple(int(v) for v in r[1]))
+        return r
+    scipy.linalg.lu_factor = spy
+    try:
+        with numpy.errstate(all='ignore'):
+            progs.run(prog, ap.UTPM(x.copy()), ap)
+    except Exception:
+        return []
+    finally:
+        scipy.linalg.lu_factor = orig
+    return [log[i:i + P] for i in range(0, len(log) - len(log) % P, P)]
+
+
 def program_section(rep, ap, rng, mode, tier, what):
     """generated programs (scalar code, buffers, vector/matrix blocks, inv/solve/det, eigh/qr/cholesky): forward evaluation and the
     reverse sweep on all directions / all coefficients against the run restricted to one direction / truncated"""
@@ -230,10 +252,24 @@ def program_section(rep, ap, rng, mode, tier, what):
         D = rng.randint(1, 4) if mode == 'dirs' else rng.randint(2, 5)
         P = rng.randint(2, 3) if mode == 'dirs' else rng.randint(1, 2)
         x = progs.rand_utpm_data(rng, D, P, N)
-        ybars = [progs.rand_utpm_data(rng, D, P, 1)[:, :, 0] for _ in range(len(prog['ret']))]
         text = progs.to_text(prog)
         ks = list(range(P)) if mode == 'dirs' else list(range(1, D))
         k = rng.choice(ks)
+        if mode == 'dirs' and it >= n_prog and kernel[it - n_prog][0].endswith(':pivoting'):
+            # base points at which partial pivoting takes DIFFERENT rows in different directions (observed by listening to the LAPACK
+            # wrapper during a forward run), restricted to a direction whose pivots differ from those of direction 0
+            P = 3
+            for attempt in range(30):
+                x = progs.rand_utpm_data(rng, D, P, N)
+                pivs = pivots_per_direction(ap, prog, x)
+                diff = [p_ for p_ in range(1, P) if pivs and any(g[p_] != g[0] for g in pivs)]
+                if diff:
+                    k = rng.choice(diff)
+                    rep.count('program:pivots differ between directions', True)
+                    break
+            else:
+                rep.count('program:pivots differ between directions', False)
+        ybars = [progs.rand_utpm_data(rng, D, P, 1)[:, :, 0] for _ in range(len(prog['ret']))]
         rep.count('program:D', D); rep.count('program:P', P); rep.count('program:restriction', k)
         rep.count('program:factorization', any(i[0] in ('eigh', 'qr', 'cholesky', 'svd', 'lu') for i in prog['instrs']))
         rep.case(('program', text, x.tobytes().hex(), k), D >= 2 and len(prog['instrs']) >= 6,
